@@ -10,6 +10,7 @@ import (
 	"fmt"
 	"go/ast"
 	"go/token"
+	"regexp"
 	"sort"
 	"strings"
 
@@ -121,6 +122,10 @@ func heightGuards(c *ex.Ctx, fd *ast.FuncDecl) []string {
 	return out
 }
 
+// guardRe: a height guard compares a local (the row counter) or a local's Height field (the size
+// being computed) with ctx.Max.Height; the local's name does not matter.
+var guardRe = regexp.MustCompile(`^\(([A-Za-z_]\w*)(\.Height)?(>=|>)CTX\.Max\.Height\)$`)
+
 func strictOf(c *ex.Ctx, where string, guards []string, lhs string, want int) []bool {
 	if len(guards) != want {
 		c.Fail("%s: expected %d height guards, found %v", where, want, guards)
@@ -128,14 +133,12 @@ func strictOf(c *ex.Ctx, where string, guards []string, lhs string, want int) []
 	}
 	out := make([]bool, want)
 	for i, g := range guards {
-		switch g {
-		case "(" + lhs + ">=CTX.Max.Height)":
-			out[i] = true
-		case "(" + lhs + ">CTX.Max.Height)":
-			out[i] = false
-		default:
+		m := guardRe.FindStringSubmatch(g)
+		if m == nil || (m[2] == ".Height") != strings.HasSuffix(lhs, ".Height") {
 			c.Fail("%s: unrecognised height guard %s", where, g)
+			continue
 		}
+		out[i] = m[3] == ">="
 	}
 	return out
 }
